@@ -126,6 +126,33 @@ func clone[T any](vs []T) []T {
 	return out
 }
 
+type gentleErr struct{ msg string }
+
+func (e *gentleErr) Error() string {
+	if e == nil {
+		return "no error value (nil *gentleErr)"
+	}
+	return e.msg
+}
+
+type valObj struct {
+	K string
+	N int
+}
+
+func (o valObj) MarshalLogObject(enc zapcore.ObjectEncoder) error {
+	enc.AddString("k", o.K)
+	enc.AddInt("n", o.N)
+	return nil
+}
+
+type labels []string
+
+func (l labels) MarshalLogObject(enc zapcore.ObjectEncoder) error {
+	enc.AddInt("count", len(l))
+	return nil
+}
+
 type enumJ int
 
 func (e enumJ) MarshalJSON() ([]byte, error) { return []byte(fmt.Sprintf(`"state-%d"`, int(e))), nil }
@@ -489,6 +516,43 @@ func rows() []row {
 				v = plainB(true)
 			}
 			return built{f: zap.Any(key, v), again: func() zapcore.Field { return zap.Reflect(key, v) }, want: call("reflected", key, v), desc: fmt.Sprintf("Any(%T)", v)}
+		}},
+		{"NamedError(nil pointer whose Error method copes with nil)", func(g *gen.G, key string) built {
+			// the text an error gives is the text delivered, also when the value is a nil pointer of a
+			// type whose method handles that
+			var e *gentleErr
+			var f zapcore.Field
+			switch g.R.Intn(3) {
+			case 0:
+				f = zap.NamedError(key, e)
+			case 1:
+				f = zap.Any(key, error(e))
+			default:
+				es := zap.Errors(key, []error{e})
+				return built{f: es, again: func() zapcore.Field { return zap.Errors(key, []error{e}) }, want: []rec.Call{{Kind: "array", Key: key, Sub: []rec.Call{{Kind: "object", Sub: call("str", "error", "no error value (nil *gentleErr)")}}}}, desc: "Errors(nil pointer with nil-safe Error)"}
+			}
+			return built{f: f, again: func() zapcore.Field { return zap.NamedError(key, e) }, want: call("str", key, "no error value (nil *gentleErr)"), desc: "NamedError(nil pointer with nil-safe Error)"}
+		}},
+		{"Objects(value elements, zero values among them)", func(g *gen.G, key string) built {
+			// every element is delivered through its marshaler, zero values included
+			n := g.R.Range(1, 4)
+			os := make([]valObj, n)
+			sub := []rec.Call{}
+			for i := range os {
+				if !g.R.P(1, 2) {
+					os[i] = valObj{K: g.Key(), N: g.R.Intn(9)}
+				}
+				sub = append(sub, rec.Call{Kind: "object", Sub: []rec.Call{{Kind: "str", Key: "k", Val: os[i].K}, {Kind: "int", Key: "n", Val: int64(os[i].N)}}})
+			}
+			return built{f: zap.Objects(key, os), again: func() zapcore.Field { return zap.Objects(key, clone(os)) }, want: []rec.Call{{Kind: "array", Key: key, Sub: sub}}, desc: "Objects(value type, zero values)"}
+		}},
+		{"Objects(elements of a type that cannot be compared)", func(g *gen.G, key string) built {
+			os := []labels{{"a", "b"}, nil, {}}
+			sub := []rec.Call{}
+			for _, o := range os {
+				sub = append(sub, rec.Call{Kind: "object", Sub: call("int", "count", int64(len(o)))})
+			}
+			return built{f: zap.Objects(key, os), again: func() zapcore.Field { return zap.Objects(key, clone(os)) }, want: []rec.Call{{Kind: "array", Key: key, Sub: sub}}, noRefl: true, desc: "Objects(uncomparable element type)"}
 		}},
 		{"Stringers(nil pointers among the elements)", func(g *gen.G, key string) built {
 			// value-receiver String on pointer elements: a nil pointer renders as "<nil>" like
